@@ -213,6 +213,7 @@ Spans(t, i, path) ==
     [] t[1] = "Paren" -> Spans(t[2], i + 1, Append(path, 1))
     [] t[1] = "Arr" -> SpansList(t[2], 1, i + 1, path)
     [] t[1] = "Sel" -> Spans(t[2], i, Append(path, 0))
+                       \o << <<Append(path, 9), "Name", i + NTok(t) - 1, i + NTok(t) - 1>> >>       \* the member name is a node too
     [] t[1] = "Call" -> Spans(t[2], i, Append(path, 0))
                         \o SpansList(t[3], 1, i + NTok(t[2]) + 1, path)
     [] t[1] = "Pre" -> Spans(t[3], i + 1, Append(path, 1))
